@@ -58,6 +58,8 @@ def createClass (fields : List String) (tuplesOnly : Bool) : RowClass :=
 /-- What a row class is called with. -/
 inductive Input (α : Type) where
   | dict (d : List (String × α))
+  /-- an instance of a proper subclass of `dict` (OrderedDict, defaultdict, Counter) holding these items -/
+  | sub (d : List (String × α))
   | seq (xs : List α)
 
 /-- `cls(data)`: `Row.__new__` sends a dictionary through the extractor; a class whose `__new__` is
@@ -67,6 +69,11 @@ def rowNew (null : α) (ofKey : String → α) (c : RowClass) : Input α → Opt
   | .dict d =>
     if c.handlesDict && newGuardIsDict then
       (if newExtractorArgsInOrder then extractLoop null c.fields d else none)
+    else some (d.map fun p => ofKey p.1)
+  | .sub d =>
+    if c.handlesDict && newGuardIsDict then
+      -- `extract_dict_columns(dict data, …)` raises TypeError for an instance of a subclass unless it was copied
+      (if newCopiesSubclass && newExtractorArgsInOrder then extractLoop null c.fields d else none)
     else some (d.map fun p => ofKey p.1)
 
 /-- `Row.get(item, default)` as written. -/
@@ -95,5 +102,12 @@ def appendCode (null : α) (ofKey : String → α) (cls : RowClass) (rows : List
     (d : List (String × α)) : Option (List (List α)) :=
   if ¬ (appendBuildsRowWithFactory ∧ appendStoresNewRow) then none else
   (rowNew null ofKey cls (.dict d)).map fun r => rows ++ [r]
+
+/-- `DataFrame.append(entry)` for an instance of a subclass of `dict`: copied into an exact dictionary by
+`append` itself, or handed to the factory as it is. -/
+def appendCodeSub (null : α) (ofKey : String → α) (cls : RowClass) (rows : List (List α))
+    (d : List (String × α)) : Option (List (List α)) :=
+  if ¬ (appendBuildsRowWithFactory ∧ appendStoresNewRow) then none else
+  (rowNew null ofKey cls (if appendCopiesSubclass then .dict d else .sub d)).map fun r => rows ++ [r]
 
 end DictRow
